@@ -7,6 +7,7 @@ import (
 	"bufio"
 	"bytes"
 	"crypto/ed25519"
+	"crypto/sha512"
 	"crypto/x509"
 	"encoding/binary"
 	"encoding/hex"
@@ -138,9 +139,19 @@ func run(r *mon.Run) {
 			continue
 		}
 		hash, herr := integrityblock.ComputeWebBundleSha512(f, off)
+		// the same handle again, after an unrelated read moved it: the hash is a function of the bytes, not of where the
+		// handle happens to be
+		f.Seek(int64(size/3), io.SeekStart)
+		io.ReadFull(f, make([]byte, 5))
+		hash2, herr2 := integrityblock.ComputeWebBundleSha512(f, off)
 		f.Close()
 		if herr != nil {
 			r.HarnessFail("hash: %v", herr)
+			continue
+		}
+		if want := sha512.Sum512(orig); herr2 != nil || !bytes.Equal(hash, want[:]) || !bytes.Equal(hash2, want[:]) {
+			r.Eval("lib:WRONG-BUNDLE-HASH")
+			r.Violation(fmt.Sprintf("ib:lib:%d:hash", i), fmt.Sprintf("ComputeWebBundleSha512 of an unsigned %d-byte bundle is not the SHA-512 of its bytes (first call correct: %v, call on the same handle after an unrelated read correct: %v, err=%v)", size, bytes.Equal(hash, want[:]), bytes.Equal(hash2, want[:]), herr2), nil)
 			continue
 		}
 		nops := 1 + g.Intn(5)
